@@ -374,7 +374,7 @@ impl Check for C12 {
     }
     fn default_runs(&self, tier: Tier) -> u64 {
         match tier {
-            Tier::Quick => 1200,
+            Tier::Quick => 2000,
             Tier::Thorough => 40000,
         }
     }
